@@ -101,6 +101,17 @@ def generate(tier, seed):
                         v = rnd.choice(["GET", "POST", "PUT", rnd.choice(vals_pool)])
                     req.append(v)
             steps.append(Q_e(req))
+        # a stored rule's own subject / action with a NON-STRING object (and subject): the matcher's built-in function has no
+        # overload for it, the evaluation fails on exactly the rules whose subject test passes - an error, never a decision
+        for rl in rules:
+            for tv in (7, True, {"k": "v"}):
+                req = [rl[i] for i in range(len(d["r"]))]
+                if "obj" in d["r"]:
+                    req[d["r"].index("obj")] = tv
+                    steps.append(Q_et(req))
+                req2 = [rl[i] for i in range(len(d["r"]))]
+                req2[0] = tv
+                steps.append(Q_et(req2))
         # chunk into cases of 60 requests
         for i in range(0, len(steps), 60):
             cases.append(case("eng", sp, adapter_M(lines), "-", steps[i:i + 60]))
